@@ -246,7 +246,7 @@ def run(ctx):
         for off in range(8):
             n_after = rng.randrange(0, 12)
             bits = ''.join(rng.choice('01') for _ in range(off + w + n_after))
-            for v in sorted({0, 1, 2 ** (w - 1), 2 ** w - 2, 2 ** w - 1, 2 ** w}):
+            for v in sorted({0, 1, 2 ** (w - 1), 2 ** w - 2, 2 ** w - 1, 2 ** w, -1, -(2 ** (w - 1))}):     # negative: refused
                 lines.append('setuint %d %d %d %s' % (v, w, off, bits_str(bits)))
                 metas.append((v, w, off, bits))
     # byte-aligned positions as the encoder uses them (length fields)
